@@ -5,6 +5,7 @@
 
 #include <chrono>
 #include <condition_variable>
+#include <igris/util/verif_hook.h>
 #include <mutex>
 
 namespace igris
@@ -40,6 +41,7 @@ namespace igris
             bWasSignalled = m_bFlag;
             m_bFlag = true;
             m_mutex.unlock();
+            IGRIS_VERIF_POINT(IGRIS_VERIF_EVENT_GAP, this, 0);
             m_condition.notify_all();
             return bWasSignalled == false;
         }
